@@ -922,6 +922,9 @@ REGRESS = [
     ('struct cube27 { int cell[2][2][2][2][2][2]; int n; }; struct cube27 r27 = { .cell[1][0][1][0][1] = {7, 8}, 9 };', 'r27', None),
     ('struct leaf28 { int v[2]; int w; }; struct tree28 { struct { struct { struct { struct { struct leaf28 e; int d4; } d; int d3; } c; int d2; } b; int d1; } a; int top; };'
      ' struct tree28 r28 = { .a.b.c.d.e.v = {1, 2}, 3, 4, 5, 6, 7, 8 };', 'r28', None),
+    # concatenated literals take the prefix of whichever part has one
+    ('unsigned short r31[] = u"ab" "cd";', 'r31', None),
+    ('struct W32 { int w[6]; unsigned short h[4]; }; struct W32 r32 = { L"ab" "c", "x" u"y" };', 'r32', None),
     # objects declared before their type is complete: image, size and alignment of the completed type
     ('struct L17 r17; struct L17 { long a; char c; }; struct L17 r17 = { 5, 6 };', 'r17', None),
     ('union L18 r18; union L18 { char c[3]; int i; };', 'r18', None),
@@ -943,6 +946,11 @@ AUTO_PROBES = [
     ('struct S22 { char a; int b[3]; char c; };', 'struct S22 x = { .b[1] = 7, .c = 3 };', 20, None),
     ('union U23 { int a; char b; };', 'union U23 x = { .a = 1, .b = 2 };', 4, None),
     ('', 'int x[] = { [5] = 50, [1] = 10, 20 };', 24, None),
+    # copies of aggregates aligned to 16 and more move every byte
+    ('struct V33 { _Alignas(16) long a; long b; long c; long d; };', 'struct V33 s = { 1, 2, 3, 4 }; struct V33 x = s;', 32, None),
+    # the tail of a wide character array after a shorter string literal is zero
+    ('', 'unsigned short x[8] = u"ab";', 16, None),
+    ('', 'int x[5] = L"a";', 20, None),
     ('struct P26 { int v[2]; };', 'struct P26 x[] = { [2].v[1] = 7, [0] = { { 1, 2 } }, { { 3 } } };', 24, None),
 ]
 D18 = ('union U18 { int a; char b; }; union U18 d18 = { .a = 1, .b = 2 };', 'd18')
